@@ -58,6 +58,11 @@ class Check(PropCheck):
                 # repair towards well-formedness so that the accepting branch is well populated
                 toks = self.well_formed(toks, rng)
             yield Case({'toks': toks, 'rich': rng.randrange(1, 1 << 30), 'via': 'direct'}, 'random')
+            if i % 3 == 0:
+                # the same validating parser object parsed something else before (possibly rejected at once)
+                prev = rng.choice([gen.random_tokens(rng), [['end', 'x']], [['start', 'a', [['a$b', 'v']]]], [],
+                                   [['decl', 'DOCTYPE html']], [['start', 'a', []], ['start', 'b', []]]])
+                yield Case({'toks': toks, 'rich': rng.randrange(1, 1 << 30), 'via': 'direct', 'prev': prev}, 'random-reuse')
             if i % 2 == 0:
                 yield Case({'toks': toks, 'rich': rng.randrange(1, 1 << 30), 'via': 'html'}, 'random-html')
 
@@ -98,6 +103,8 @@ class Check(PropCheck):
         toks = parsing.tokenize(self.text_of(d))
         err, left = classify(toks)
         fs = ['via:' + d['via'], 'class:' + (err or ('left-open' if left else 'well-formed'))]
+        if d.get('prev') is not None:
+            fs.append('reused-parser')
         _, mode, _ = c02.spec_doc(toks)
         fs.append('mode:' + mode)
         return fs
@@ -108,6 +115,10 @@ class Check(PropCheck):
             yield dict(d, toks=toks[:j] + toks[j + 1:])
         if d['rich']:
             yield dict(d, rich=0)
+        if d.get('prev'):
+            pv = d['prev']
+            for j in range(len(pv)):
+                yield dict(d, prev=pv[:j] + pv[j + 1:])
         for j, t in enumerate(toks):
             if t[0] in ('start', 'startend') and t[2]:
                 for k in range(len(t[2])):
@@ -116,8 +127,13 @@ class Check(PropCheck):
     def encode(self, d):
         return parsing.toks_sx(parsing.tokenize(self.text_of(d)))
 
-    def run_one(self, cls, text):
+    def run_one(self, cls, text, prev_text=None):
         p = cls()
+        if prev_text is not None:
+            try:
+                p.parseStr(prev_text)
+            except Exception:        # noqa
+                pass
         try:
             p.parseStr(text)
         except Exception as e:        # noqa
@@ -129,8 +145,9 @@ class Check(PropCheck):
     def impl(self, d):
         import AdvancedHTMLParser as A
         text = self.text_of(d)
-        v, _ = self.run_one(A.ValidatingAdvancedHTMLParser, text)
-        p, _ = self.run_one(A.AdvancedHTMLParser, text)
+        prev = c02.render(d['prev'], 0) if d.get('prev') is not None else None
+        v, _ = self.run_one(A.ValidatingAdvancedHTMLParser, text, prev)
+        p, _ = self.run_one(A.AdvancedHTMLParser, text, prev)
         return sx(v, p)
 
     def oracle(self, d):
@@ -140,6 +157,11 @@ class Check(PropCheck):
         err, left = classify(toks)
         v = A.ValidatingAdvancedHTMLParser()
         raised = None
+        if d.get('prev') is not None:
+            try:
+                v.parseStr(c02.render(d['prev'], 0))
+            except Exception:        # noqa
+                pass
         try:
             v.parseStr(text)
         except Exception as e:        # noqa
